@@ -94,8 +94,9 @@ fn interface_docs() -> Vec<Doc> {
     let mut docs = Vec::new();
     let ts = types();
     let vals = values();
-    for (n, t) in ts.iter().enumerate() { for oneway_iface in [false, true] {
-        let u = &ts[(n * 7 + 3) % ts.len()];
+    let full = std::env::var("ORACLE_FULL").map(|v| v == "1").unwrap_or(false);
+    for (n, t) in ts.iter().enumerate() { for oneway_iface in [false, true] { for m in 0..(if full { ts.len() } else { 1 }) {
+        let u = &ts[(n * 7 + 3 + m) % ts.len()];
         let (vt, vs) = &vals[n % vals.len()];
         let mut k = Vec::new();
         push(&mut k, &["package", "p", ".", "q2", ";", "import", "x", ".", "y", ".", "Foo", ";", "import", "a", ".", "K", ";", "parcelable", "Fwd", ";", "parcelable", "z", ".", "Other", ";"]);
@@ -117,7 +118,7 @@ fn interface_docs() -> Vec<Doc> {
         s += &format!(" method voidy oneway={} ret=void args=[] code=None ann=@Deprecated[]\n", ow(true));
         s += &format!(" method Voidy oneway={} ret=void args=[in {} x ] code=None ann=\n", ow(false), t.shape());
         docs.push(Doc { toks: k, shape: s, oneway_iface });
-    } }
+    } } }
     docs
 }
 fn parcelable_docs() -> Vec<Doc> {
